@@ -248,6 +248,7 @@ def layer(tier, seed):
     if "No error has been found" not in out:
         raise tlc.TLCError("WorldLife.tla: " + "\n".join(out.splitlines()[-30:]))
     mst = tlc.stats(out)
+    proof = tlc.run_tlaps("WorldLifeProof", deps=("WorldLife.tla",))
     scripts, ginfo = scripts_from_spec()
     nspec = len(scripts)
     scripts += random_scripts(300 if tier == "quick" else 5000, seed)
@@ -263,4 +264,5 @@ def layer(tier, seed):
     return {"module": "WorldLife", "model_states": mst["distinct"], "model_transitions": mst["generated"], "graph_replayed": ginfo, "scripts_from_the_specification": nspec,
             "random_scripts": len(scripts) - nspec, "calls_validated": sum(len(t) for t in traces), "trace_validation_states": vinfo["states"],
             "rejected": len(bad), "drift": bad[:5],
+            "tlaps": dict(proof, theorems="InitInv, StepInv (finalize count = 1 iff loop closed and simulator started; run => closed: inductive for any ids / groups / calls), Consequences (the five state invariants follow)"),
             "invariants": "NoDoubleStop, StopOnlyStarted, ClosedStopsAll, OpenStopsNone, RanImpliesClosed, GroupOfStarted; action properties Monotone, RefusedChangesNothing, AtMostOneRun"}
